@@ -22,6 +22,11 @@ fn soil_opt(soil: u64) -> Option<u64> {
 fn index_probe(count: usize, base: usize) -> Vec<usize> {
     let mut v: Vec<usize> = (0..count + 3).collect();
     v.extend([usize::MAX - base, (usize::MAX - base).wrapping_add(1), usize::MAX - 1, usize::MAX, usize::MAX / 2, 65535, 65536]);
+    // aliases of valid indexes under truncation to 8, 16, 32 or 48 bits (of the index itself and of base + index)
+    for w in [8u32, 16, 32, 48] {
+        let t = 1usize << w;
+        v.extend([t, t + 1, t + count.saturating_sub(1), t + count, t.wrapping_sub(base), t.wrapping_sub(base) + 1, 2 * t + 1]);
+    }
     v.sort();
     v.dedup();
     v
